@@ -116,7 +116,7 @@ class Check:
 
     # ---- running the engine on a package of /repo (or a scratch module) with overlay harness files ----
     def run_pkg(self, moddir, pkg_pattern, pkgdir, pkgname, harness_files, regex, params=None, workers=16, wall=None,
-                max_models=20, extra_flags=(), label=None, feas_ms=None, oblig_ms=None, expect_covers=True, gen=None, max_paths=None, soft_trunc=False, extra_overlays=None, soft_problem_rx=None):
+                max_models=20, extra_flags=(), label=None, feas_ms=None, oblig_ms=None, expect_covers=True, gen=None, max_paths=None, soft_trunc="record", extra_overlays=None, soft_problem_rx=None):
         gose = ensure_gose()
         params = params or {}
         rts = rt_files(pkgname, self.scratch)
@@ -161,9 +161,13 @@ class Check:
             probs = h.get("Problems") or []
             if soft_trunc and h.get("Truncated") and all(("truncated" in pr or "wall budget" in pr) for pr in probs) and not (h.get("Unknowns") or []):
                 rep["_truncated"].append(h["Name"])
-                h["Models"] = []
                 if soft_trunc == "record":
-                    self.not_covered.append({"harness": h["Name"], "schema": ctx["label"], "reason": "path/wall budget exhausted (%d paths explored, violations found so far are still reported)" % h["Paths"]})
+                    # explored but not exhausted: counted in the statistics, flagged incomplete, listed under not_covered
+                    h["_incomplete"] = True
+                    self.runs.append(h)
+                    self.not_covered.append({"harness": h["Name"], "schema": ctx["label"], "reason": "path/wall budget exhausted after %d paths (violations found so far are still reported)" % h["Paths"]})
+                else:
+                    h["Models"] = []
                 continue
             self.runs.append(h)
             for pr in probs:
@@ -361,7 +365,8 @@ echo "not reproduced"; exit 0
             "states": states, "transitions": max(trans, 1 if states else 0), "traces_validated_against_impl": self.validated,
             "samples": self.samples or [{"note": "no run completed"}],
             "harnesses": [{"name": h["Name"], "pkg": h["_ctx"]["label"], "paths": h["Paths"], "outcomes": h["Outcomes"], "forks": h["Forks"],
-                           "obligation_ids": h.get("Asserts"), "covers": sorted((h.get("Covers") or {}).keys()), "wall_s": round(h["Wall"] / 1e9, 2)} for h in self.runs],
+                           "obligation_ids": h.get("Asserts"), "covers": sorted((h.get("Covers") or {}).keys()), "wall_s": round(h["Wall"] / 1e9, 2),
+                           "complete": not h.get("_incomplete", False)} for h in self.runs],
             "functions_encoded": {k: funcs[k] for k in sorted(funcs) if not k.startswith("Verif") and ".verif" not in k and ".Verif" not in k},
             "bounds": bounds or {}, "outside_claim": outside or [], "queries": queries,
             "solvers": ["z3 5.1.0 (z3-new; primary, one process per worker, push/pop)", "z3 4.8.12 and cvc5 1.0 (one-shot re-decision of obligations the primary leaves unknown)"],
